@@ -85,6 +85,8 @@ def extract_sesame(repo):
         bands = []
         last = None
         node = chain
+        if chain is None:          # the table is no longer an if/elif chain: unavailable, not "an empty table"
+            raise ValueError("no threshold chain")
         while node is not None:
             test = ast.unparse(node.test)
             g = grab(test, r"^\w+ < " + NUM + "$")
@@ -98,6 +100,8 @@ def extract_sesame(repo):
                 body = {ast.unparse(s.targets[0]): ast.unparse(s.value) for s in node.orelse if isinstance(s, ast.Assign)}
                 last = (dec_pair(body["epsilon"]), dec_pair(body["theta"]))
                 node = None
+        if not bands or last is None:
+            raise ValueError("incomplete table")
         out["sesameBands"] = bands
         out["sesameLastBand"] = last
     except Exception:
